@@ -85,10 +85,10 @@ def _kv(line):
 
 
 def _parse_rw(rest):
-    m = re.match(r'(\d+)\s+(.*?)\s+=>\s\s?(.*)$', rest)
+    m = re.match(r'(\d+)\s+(.*?)\s+=>(?:\s\s?(.*))?$', rest)
     if not m:
         raise Undecided('bad rewrite directive: %r' % rest)
-    return int(m.group(1)), m.group(2), m.group(3)
+    return int(m.group(1)), m.group(2), m.group(3) or ''
 
 
 def _apply_rw(text, rules, what, log):
